@@ -1,6 +1,7 @@
 /-
   C08 — undo-log encoding is lossless under every serializer and compressor setting.
 -/
+import SeataModel.UndoLog.Lz4Buf
 import SeataModel.Lemmas.UndoLog
 namespace Seata.Props.C08
 open Seata Seata.UndoLog
@@ -163,5 +164,28 @@ def sampleLog : Log :=
 
 example : ∀ c ∈ colsOfLog sampleLog, supported .json c.jdbc c.val = true := by decide
 example : rtLog .json sampleLog = .ok sampleLog := by decide +kernel
+
+
+/-! ### the lz4 reader's buffer -/
+
+/-- every block lz4 can produce is read back: whatever `need ≤ 255·n` bytes a block of `n` bytes holds, one of
+    the buffers tried is large enough (so the undo log that could be written can be rolled back) -/
+theorem C08_lz4_buffer_suffices (n need : Nat) (h : need ≤ 255 * n) :
+    ∃ size, lz4Read n need = some size ∧ need ≤ size := by
+  unfold lz4Read
+  by_cases h0 : need ≤ 100 * n + 64
+  · exact ⟨_, by simp [lz4Try, h0], h0⟩
+  · by_cases h1 : need ≤ 2 * (100 * n + 64)
+    · refine ⟨2 * (100 * n + 64), ?_, h1⟩
+      have : ¬ (100 * n + 64 > 255 * n + 64) := by omega
+      simp [lz4Try, h0, h1, this]
+    · refine ⟨2 * (2 * (100 * n + 64)), ?_, by omega⟩
+      have a : ¬ (100 * n + 64 > 255 * n + 64) := by omega
+      have b : ¬ (2 * (100 * n + 64) > 255 * n + 64) := by omega
+      have c : need ≤ 2 * (2 * (100 * n + 64)) := by omega
+      simp [lz4Try, h0, h1, a, b, c]
+
+/-- before the repair a block that shrank below a hundredth was lost (finding C08-lz4-ratio-beyond-hundred) -/
+theorem C08_before_fix_lz4 : lz4ReadBeforeFix 1957 300000 = none ∧ (300000 : Nat) ≤ 255 * 1957 := by decide
 
 end Seata.Props.C08
